@@ -43,6 +43,10 @@ func NewCounter(capacity uint8, freeCb func()) *Counter {
 
 // Incr increases the specified key visits.
 func (c *Counter) Incr(key string) {
+	// nothing can be tracked.
+	if c.capacity == 0 {
+		return
+	}
 	c.mu.Lock()
 	item, ok := c.items[key]
 	if ok {
